@@ -132,13 +132,8 @@ def run(repo, rep):
         n += 1
         rep.check(cat == 'UserWarning', 'C14.b', 'warn-helper:category', '%s:%d' % (m.relpath, c.lineno), 'category UserWarning',
                   'the failure warning is issued with category %s' % cat, nontrivial=True)
-        p0 = warn.params[0]
-        txt = src(warn.node)
-        n += 1
-        rep.check('%s.__module__' % p0 in txt and '%s.__qualname__' % p0 in txt and _flows_to(warn.node, p0, c),
-                  'C14.b', 'warn-helper:names-printer', warn.where, 'message names module.qualname of the printer',
-                  'the warning text no longer contains the printer\'s __module__ and __qualname__', nontrivial=True)
-    rep.floor('C14.b', n, 6)
+    # (that the message names the printer is decided on the interpreted pipeline: wrapper-model:warning-names-printer)
+    rep.floor('C14.b', n, 5)
 
     # ---------------------------------------------------------------- C14.e later calls unaffected
     from . import shared_state as SS
